@@ -657,6 +657,11 @@ class FnAnalysis:
         loops = fn.loops()
         heads = set(loops)
         self.visits = {}
+        # per-edge out-states: a block's entry is the join of the states on its incoming edges (not of every state it
+        # was ever entered with), so facts established on the only path into a block survive re-visits; loop heads
+        # additionally widen against their previous entry
+        edge = {}
+        preds = {}
         guard = 0
         while work:
             guard += 1
@@ -664,19 +669,26 @@ class FnAnalysis:
                 raise RuntimeError("interval fixpoint did not converge in " + fn.path)
             bb = work.pop()
             st = self.entry[bb]
+            outs = {}
             for succ, s2 in self.step_block(bb, st):
                 if fn.blocks[succ]["cleanup"]:
                     continue
+                outs[succ] = s2 if succ not in outs else self.join(outs[succ], s2, succ)
+            for succ, s2 in outs.items():
+                edge[(bb, succ)] = s2
+                preds.setdefault(succ, set()).add(bb)
+                acc = None
+                for p in sorted(preds[succ]):
+                    e = edge[(p, succ)]
+                    acc = e if acc is None else self.join(acc, e, succ)
                 old = self.entry.get(succ)
-                if old is None:
-                    new = s2
-                else:
-                    n = self.visits.get(succ, 0)
-                    new = self.join(old, s2, succ, widen=(succ in heads and n > 3))
-                    if new.key() == old.key():
-                        continue
-                self.visits[succ] = self.visits.get(succ, 0) + 1
-                self.entry[succ] = new
+                n = self.visits.get(succ, 0)
+                if old is not None and succ in heads:
+                    acc = self.join(old, acc, succ, widen=(n > 3))
+                if old is not None and acc.key() == old.key():
+                    continue
+                self.visits[succ] = n + 1
+                self.entry[succ] = acc
                 if succ not in work:
                     work.append(succ)
 
